@@ -15,7 +15,8 @@ import (
 // (setupServerRouter: defineStaticRoutes, the lib/services scan, defineNativeAdminHandlers with
 // the OAuth2 resource-server routes, the redirectors) and hands it to the C20 engine in package
 // router, which substitutes probe handlers and drives every route and thousands of generated
-// declarations × every credential form through the real Router.ServeHTTP.
+// declarations × every credential form through the real Router.ServeHTTP, and then request
+// SEQUENCES in which the credential state changes between requests (zz_verif_c20_seq.go).
 func TestVerifC20(t *testing.T) {
 	root, err := filepath.Abs(filepath.Join("..", ".."))
 	if err != nil {
@@ -41,4 +42,5 @@ func TestVerifC20(t *testing.T) {
 
 	e.DriveTable(table, "table")
 	e.DriveDeclarations()
+	e.DriveSequences(table)
 }
